@@ -6,14 +6,14 @@ CHECKS = {
     "C12": {
         "title": "arithmetic modulo q is exact and canonical",
         "rule": "Exhaustive differential monitor: every i16 through Felt::new, every residue through neg/inverse/centred "
-                "representative, every pair (a,b) in [0,q)^2 through add/sub/mul/multiply, compared with i64 arithmetic "
+                "representative, every pair (a,b) in [0,q)^2 through add/sub/mul/multiply and (b != 0) division, compared with i64 arithmetic "
                 "mod 12289 under a panic monitor, in the release and in the overflow-checked build; batch inversion on "
                 "seeded vectors with zeros at every position. distinct_nontrivial = number of distinct left operands a "
                 "whose complete row of q right operands was checked (all of them are non-trivial: each row exercises "
                 "the conditional reductions on both sides of q).",
         "assumptions": ["the harness's own i64 % 12289 arithmetic", "operands enter through Felt::new (itself checked exhaustively)"],
         "exhaustive": True,
-        "exhaustive_scope": "all 65536 conversions, all 12289 residues (unary), all 12289^2 pairs (binary); batch inversion is sampled",
+        "exhaustive_scope": "all 65536 conversions, all 12289 residues (unary), all 12289^2 pairs (add, sub, mul, multiply, div with b != 0); batch inversion is sampled",
         "legs": [{"name": "exhaustive", "profiles": BOTH}],
         "technique": "exhaustive differential monitor (reference-model oracle) + panic monitor on release and overflow-checked builds",
         "level_text": "Every input of the finite domain is executed on the real code and compared with an i64 reference; "
@@ -224,6 +224,42 @@ CHECKS["C14"] = {
     "technique": "differential monitor against an independent SHAKE-256 + Algorithm 3 with boundary-chunk coverage counters",
     "level_text": "Sampled over inputs; the rejection threshold is exercised at its exact boundary hundreds of times per run.",
     "level_note": "inputs not generated are not covered",
+}
+
+CHECKS["C08"] = {
+    "title": "every signature carries a fresh 40-byte salt",
+    "rule": "Offline history checker over recorded salts (bytes 1..41 of to_bytes()) of the REAL thread_rng path (no RNG override "
+            "installed). Histories: 16 threads behind a barrier signing the same message under one key, distinct messages, and a "
+            "second key, for both variants; 1600 (20000 thorough) short-lived threads signing once or twice each (thread-per-request "
+            "pattern); K child processes started together signing the same (message, key); the same message twice back to back; and "
+            "a history produced by a build of falcon-rust WITHOUT the verif-hooks feature through the public API only. Checks per "
+            "history and on the union: no salt occurs twice (hash map, witness = the two calls), every one of the 40 byte positions "
+            "takes >= 32 distinct values, each of the 320 bits is balanced within 6 sigma, no two calls return byte-identical "
+            "signatures. distinct_nontrivial = number of distinct histories checked (threads x workloads, thread churn, processes, "
+            "hook-free build).",
+    "assumptions": ["predictability of a non-repeating generator is not observable from its outputs", "history sizes: about 2e5 salts quick, 1.6e6 thorough"],
+    "legs": [{"name": "salts"}, {"name": "processes"}, {"name": "plain-build", "external": "plain-salts"},
+             {"name": "tsan", "external": "tsan", "tiers": ["thorough"], "sublegs": [["C08", "salts"]], "scale": "10"}],
+    "technique": "offline checker over a recorded event log (salt multiset: uniqueness, per-position variability, per-bit balance) from multi-thread, thread-churn and multi-process histories, incl. a hook-free build",
+    "level_text": "History-based: every recorded sign call contributes its salt; the checker decides uniqueness exactly and bias statistically on the histories produced.",
+    "level_note": "a repeat outside the recorded histories is not observable",
+}
+
+CHECKS["C15"] = {
+    "title": "key generation is a deterministic function of the seed; every bit matters",
+    "rule": "History table seed -> fingerprint(sk bytes + in-memory basis incl. G, pk bytes). Every seed is generated (a) in the main "
+            "thread with unrelated thread_rng draws in between, (b) by 8 concurrent threads walking the seeds in different orders "
+            "while signing with other keys in between, (c) by two child processes started with different environment (TZ, LANG, "
+            "environment size) - all fingerprints of a seed must be identical. Bit flips: for a base seed, the 257 keys of the seed "
+            "and its 256 single-bit neighbours must be pairwise distinct in both secret and public key (one Falcon-512 neighbourhood "
+            "quick; 5 Falcon-512 + 1 Falcon-1024 thorough). distinct_nontrivial = seeds with a multi-context history + bit-flip "
+            "neighbours generated.",
+    "assumptions": ["machine state that does not vary inside this sandbox (CPU model, libm) cannot be observed"],
+    "legs": [{"name": "determinism"}, {"name": "bitflips"},
+             {"name": "tsan", "external": "tsan", "tiers": ["thorough"], "sublegs": [["C15", "determinism"]], "scale": "50"}],
+    "technique": "history checker over a seed -> key table filled from threads, interleaved activity and separate processes; exhaustive single-bit neighbourhood of sampled seeds",
+    "level_text": "Each seed is executed in about 11 contexts and compared; all 256 single-bit neighbours of sampled seeds are generated.",
+    "level_note": "seeds not sampled are not covered; cross-machine determinism is out of reach here",
 }
 
 NOT_APPLICABLE = {}
